@@ -227,8 +227,8 @@ VERUS = {
     'ctrl': dict(props=['C01', 'C06', 'C13', 'C02', 'C10', 'C18'], tier='quick',
                  desc='control-byte logic of the table core on extracted text over a Vec<u8> view of the control array, all table sizes, both widths: set_ctrl (mirror index, mirror invariant, frame), set_ctrl_hash, replace_ctrl_hash, is_bucket_full, record_item_insert_at (accounting F1), erase (EMPTY/DELETED, accounting, frame, no tombstone below one group, and the gap witness of the tombstone rule: EMPTY only when EMPTY bytes lie on both sides fewer than WIDTH apart), Tag, probe_seq, find_insert_slot_in_group / fix_insert_slot / find_insert_slot (result special, reachable for the probed hash, terminates), find_inner (sound, None-certificate, terminates for any eq), find_or_find_insert_slot_inner, prepare_rehash_in_place (FULL -> DELETED, everything else -> EMPTY, mirror rebuilt), prepare_insert_slot, clear_no_drop (valid empty table, full capacity, no tombstone); every control-byte access in bounds; lemma layer over these contracts: F1 gives an EMPTY bucket (L4), insert into the found slot and erase both preserve the reachability invariant F2 of every other element (L3, L2), lookup answers Some exactly when a FULL bucket accepted by eq exists (L5)',
                  paired={}),
-    'guard': dict(props=['C04', 'C02'], tier='quick',
-                  desc='the scope-guard closure of rehash_in_place, extracted from inside the real function (closure header -> function header with the captures as parameters): from any state a hasher call can leave behind (buckets EMPTY / FULL / DELETED-marked, items counting the last two) it leaves no marker, items == #FULL, growth_left == capacity - items, mirror invariant intact -- with and without drop glue; this is the clause the defect fixed by 7863c1b violated',
+    'guard': dict(props=['C04', 'C02', 'C03'], tier='quick',
+                  desc='the scope-guard closure of rehash_in_place, extracted from inside the real function (closure header -> function header with the captures as parameters): from any state a hasher call can leave behind (buckets EMPTY / FULL / DELETED-marked, items counting the last two) it leaves no marker, items == #FULL, growth_left == capacity - items, mirror invariant intact, and exactly the un-rehashed elements are dropped, each once (drop log), when there is drop glue -- with and without drop glue; this is the clause the defect fixed by 7863c1b violated',
                   paired={}),
     'shrink': dict(props=['C08'], tier='quick',
                    desc='RawTable::shrink_to on extracted text against the contracts of capacity_to_buckets (proved in the same unit), with_capacity, resize and drop_inner_table: no element lost, never enlarges, empty + 0 frees the allocation, capacity() >= max(len, min(m, previous)), bucket count at most the one capacity_to_buckets gives for max(len, m); the unreachable_unchecked() after the infallible resize is dead',
